@@ -148,7 +148,14 @@ package ociclient
 //@   requires initialReq != nil && initialReq.ListN >= 1 && parseResponse != nil &&
 //@            0 <= initialReq.Kind && initialReq.Kind <= ocirequest.ReqCatalogList
 //@   loop 0 progress do
-//@   loop 0 invariant wfReq(req)
+//@   loop 0 invariant wfReq(req) && !stopped() && yieldedErr() == nil
+// C05: every item of a page the server sent is handed on, in the page's order,
+// nothing skipped; the iteration ends only because the consumer declined, an
+// error was delivered, or a page came back shorter than the page size.
+//@   loop 1 invariant !stopped() && yieldedErr() == nil && rangeindex + 1 <= len(items) && yielded() >= rangeindex + 1
+//@   loop 1 invariant forall j int :: 0 <= j && j <= rangeindex ==> yieldedAt(yielded() - 1 - rangeindex + j) == items[j]
+//@   loop 1 exit rangeindex == len(items)
+//@   ensures[ends-for-a-reason] stopped() || len(items) < initialReq.ListN
 
 //@ func nextLink
 //@   modifies nothing
